@@ -4,6 +4,7 @@ seeds are searched until every iteration order of each 3-key set used by the sce
 witness; every scenario runs once per witness seed (plus one seed twice) in different
 directories and the outputs are compared byte for byte."""
 import itertools
+import re
 import json
 import os
 import shutil
@@ -36,6 +37,9 @@ def blocks(n):
         "handle-create": [{"op": "handle", "name": n, "types": [True, True, True], "strategy": "recreate", "result": RESULT3}],
         "handle-keep": [{"op": "handle", "name": n, "types": [True, False, True], "strategy": "keep", "result": RESULT3}],
         "handle-update": [{"op": "handle", "name": n, "types": [False, True, True], "strategy": "update", "result": RESULT3}],
+        # failing operations: the build ends with an error, what is left behind must still be the same
+        "exec-missing": [{"op": "cached", "name": n, "launch": True}, {"op": "write_exec_d", "name": n, "programs": {"gone": "missing"}}],
+        "handle-exec-missing": [{"op": "handle", "name": n, "types": [True, True, True], "strategy": "recreate", "result": dict(RESULT3, execd={"gone": "missing"})}],
     }
 
 LAUNCH3 = {"processes": [{"type": t, "command": ["c", t], "args": ["a"], "default": t == "web"} for t in ("web", "worker", "cron")],
@@ -50,11 +54,17 @@ def scenarios(thorough):
     depth = 3 if thorough else 2
     for d in range(1, depth + 1):
         for combo in itertools.product(names, repeat=d):
-            ops = []
-            for i, b in enumerate(combo):
-                # alternate between two layers so that siblings coexist
-                ops += blocks("a" if i % 2 == 0 else "b.c")[b]
-            out.append({"phase": "build", "label": "+".join(combo), "script": {"build": {"kind": "pass", "ops": ops, "launch": LAUNCH3, "store": STORE3, "build_sboms": SB3, "launch_sboms": SB3[:2]}}})
+            # the same layer throughout (re-requests of an existing layer) and alternating layers
+            for layers in (["a"] * d, ["a" if i % 2 == 0 else "b.c" for i in range(d)]):
+                if d > 1 and layers == ["a"] * d and d == 1:
+                    continue
+                ops = []
+                for i, b in enumerate(combo):
+                    ops += blocks(layers[i])[b]
+                label = "+".join(f"{b}@{l}" for b, l in zip(combo, layers))
+                if any(sc["label"] == label for sc in out):
+                    continue
+                out.append({"phase": "build", "label": label, "script": {"build": {"kind": "pass", "ops": ops, "launch": LAUNCH3, "store": STORE3, "build_sboms": SB3, "launch_sboms": SB3[:2]}}})
     out.append({"phase": "build", "label": "results-only", "script": {"build": {"kind": "pass", "launch": LAUNCH3, "store": STORE3, "build_sboms": SB3, "launch_sboms": SB3}}})
     out.append({"phase": "detect", "label": "plan", "script": {"detect": {"kind": "pass_plan", "plan": PLAN}}})
     return out
@@ -124,16 +134,17 @@ def run(ctx):
     for i, sc in enumerate(scs):
         runs = results[i]
         base_seed, _, (code0, out0) = runs[0]
-        if code0 != 0:
+        if code0 != 0 and "missing" not in sc["label"]:
             raise Machinery(f"C20 scenario {sc['label']} fails on its own: exit {code0}")
         distinct_docs.add(json.dumps(sorted((k, str(v)) for k, v in out0.items())))
         for seed, tag, (code, out) in runs[1:]:
             if code != code0 or out != out0:
                 diff = [k for k in sorted(set(out) | set(out0)) if out.get(k) != out0.get(k)]
                 what = f"scenario {sc['label']}: outputs differ between hash seed {base_seed} and {seed}: {[(k, str(out0.get(k))[:120], str(out.get(k))[:120]) for k in diff[:3]]}"
+                kind = re.sub(r"\d+", "N", diff[0].split("/")[-1]) if diff else "exit"
                 if tag == "again" and seed == base_seed:
-                    raise Machinery("C20: the same seed gave different outputs - nondeterminism not owned: " + what)
-                kind = diff[0].split("/")[-1] if diff else "exit"
+                    # the hash seed is owned (probed above), so this is a non-hash source (pid, time, ...)
+                    kind = "same-seed:" + kind
                 kind = "layer-toml" if kind.endswith(".toml") and kind not in ("launch.toml", "store.toml", "plan.toml") else kind
                 res.violation(f"output-differs:{kind}", what, {"label": sc["label"], "seeds": [base_seed, seed]})
                 if ctx.replay:
@@ -144,7 +155,7 @@ def run(ctx):
     res.cov("iteration_orders_witnessed", cover)
     res.cov("distinct_nontrivial", len(distinct_docs))
     res.cov("determinism_replays", len(scs))
-    res.cov("rule", "scenarios = every sequence of <=2 (quick)/<=3 (thorough) blocks over {cached, cached->delete, uncached, cached+4 writes with 3-key collections, handle create/keep/update with 3-key results} alternating over two layer names, each finished with a build result holding 3 processes/labels, nested store tables and 3+2 SBOMs, plus a results-only build and a detect plan with or-groups and 3-key metadata; each run once per witness seed (all 3! iteration orders of four 3-key sets witnessed) in fresh processes and directories, plus one seed twice; distinct_nontrivial = distinct output trees")
+    res.cov("rule", "scenarios = every sequence of <=2 (quick)/<=3 (thorough) blocks over {cached, cached->delete, uncached, cached+4 writes with 3-key collections, handle create/keep/update with 3-key results, and two failing exec.d operations} on one layer throughout and alternating over two layer names, each finished with a build result holding 3 processes/labels, nested store tables and 3+2 SBOMs, plus a results-only build and a detect plan with or-groups and 3-key metadata; each run once per witness seed (all 3! iteration orders of four 3-key sets witnessed) in fresh processes and directories, plus one seed twice; distinct_nontrivial = distinct output trees")
     res.cov("bound", {"keys_per_unordered_collection": 3, "sequence_depth": 3 if ctx.thorough else 2})
     res.cov("exhaustive", True)
     res.sample({"scenario": scs[len(scs) // 2]["label"], "seeds": seeds})
